@@ -2,7 +2,7 @@
 C07 — shaping is safe, terminating, text-conserving and history-independent.
 Only property theorems and non-vacuity examples live here; helper lemmas are in
 Proofs/Shape*.lean.  The engine model (Model/ShapeEngine.lean) mirrors
-opentype/gtab/{layout,filter,gsub,nested,gpos}.go as repaired for DESIGN §9 #11 #12 #13 #14
+opentype/gtab/{layout,filter,gsub,nested,gpos,gpos4,gpos6}.go as repaired for DESIGN §9 #11 #12 #13 #14
 #15 #33; `Shape.apply B ll gd lookups stack seq` is one call `ctx.Apply(seq)` on a context
 with lookup list `ll`, GDEF `gd`, lookup indices `lookups` and persistent stack `stack`;
 `B` is the nested-action budget (64 in the source; the theorems hold for every `B`).
@@ -90,10 +90,11 @@ theorem C07_history_independent (B : Nat) (ll : LookupList) (gd : Gdef) (lookups
 
 /-- **No panic**, proved for guarded lookup lists without contextual subtables.  `guardedLL`
 says: every coverage index is inside the array it indexes (GSUB 1.2/2.1/3.1/4.1/8.1, context
-format 1, GPOS 1.2 — the reader establishes this by pruning), a context format 3 has at least
-one input coverage (the reader rejects 0), and no value record uses a field whose application
-is unimplemented (excluded by the property text).  Every conjunct is needed: see
-`C07_unguarded_panics`. -/
+format 1, GPOS 1.2/3.1/4.1/6.1 — the reader establishes this by pruning), a context format 3
+has at least one input coverage (the reader rejects 0), no pair-adjustment pointer is nil, and
+no value record uses a field whose application is unimplemented (excluded by the property
+text).  Nothing is assumed about class values, mark classes, lookup, sequence or filtering-set
+indices.  Every conjunct is needed: see `C07_unguarded_panics`. -/
 theorem C07_no_panic_partial (B : Nat) (ll : LookupList) (gd : Gdef) (lookups : List Nat)
     (seq : List Glyph) (hg : guardedLL ll = true) (hs : simpleLL ll = true) (site : String) :
     Shape.apply B ll gd lookups [] seq ≠ .panic site :=
